@@ -59,6 +59,9 @@ pub struct FontSpec {
     pub line_gap: i16,
     /// OS/2 (version 4, 96 bytes): its line metrics replace those of hhea when USE_TYPO_METRICS is set or hhea's are 0.
     pub os2: Option<Os2>,
+    /// tables written as given (tag, bytes): for table kinds fontgen has no writer for (Apple `kern` state machines ...);
+    /// not part of the Coq `font` term
+    pub raw_tables: Vec<([u8; 4], Vec<u8>)>,
     /// hmtx advance per glyph (len == num_glyphs; numberOfHMetrics = num_glyphs), lsb 0.
     pub hadv: Vec<u16>,
     /// vhea + vmtx.
@@ -703,6 +706,7 @@ impl FontSpec {
             descender: -200,
             line_gap: 0,
             os2: None,
+            raw_tables: Vec::new(),
             hadv: (0..num_glyphs).map(Self::basic_hadv).collect(),
             vmetrics: None,
             cmap: (1..num_glyphs).map(|g| (pua(g as u32 - 1), g)).collect(),
